@@ -11,7 +11,10 @@ import EAO.Lemmas.StorageUnit
     * `scaleAll k a` — the same with ALL bounds multiplied by `k`; equal to `scaleProblemCaps k a` when every variable
       is a capacity variable (`FullCap`), which is what the LP builders produce.
     * `ContractP.capsTimes`, `TransportP.capsTimes`, `StorageP.capsTimes` — the parameter sets with every capacity
-      (and take volume / size / levels / inflow) multiplied by `k`. -/
+      (and take volume / size / levels / inflow) multiplied by `k`.
+    * `CapsPrices k p prices prices'` — the price data that go with it when capacities are given as keys: exactly the
+      series used as capacities are multiplied by `k`; `CapsData` is what the builders need of it.
+    * `ZeroBox` — all bounds zero (what the builders return at `k = 0`). -/
 namespace EAO
 
 /-- a take period with its volume multiplied by `k` -/
@@ -214,12 +217,25 @@ theorem scalarIllPosed_scale {k : Rat} (hk : 0 < k) (a b : ParamValue) :
   cases a <;> cases b <;> simp [ParamValue.scale, scalarIllPosed]
   exact Rat.mul_lt_mul_right hk
 
-theorem contractVectors_caps {k : Rat} (hk : 0 < k) (p : ContractP) (hmin : p.minCap.isKey = false)
-    (hmax : p.maxCap.isKey = false) (g : Grid) (prices : Prices) :
-    contractVectors (p.capsTimes k) g prices
+/-- what "the price data `prices'` go with capacities times `k`" means for the builders: the capacity vectors are
+    multiplied by `k`, price and extra costs are the same -/
+structure CapsData (k : Rat) (p : ContractP) (g : Grid) (prices prices' : Prices) (fullT : Nat) : Prop where
+  maxCap : makeVector (p.maxCap.scale k) g prices' none true = (makeVector p.maxCap g prices none true).map (scO k)
+  minCap : makeVector (p.minCap.scale k) g prices' none true = (makeVector p.minCap g prices none true).map (scO k)
+  extra  : makeVector p.extraCosts g prices' (some 0) false = makeVector p.extraCosts g prices (some 0) false
+  price  : priceVector p.price g prices' fullT = priceVector p.price g prices fullT
+
+/-- capacities not given as keys: the same price data will do -/
+theorem capsData_self (k : Rat) (p : ContractP) (hmin : p.minCap.isKey = false) (hmax : p.maxCap.isKey = false)
+    (g : Grid) (prices : Prices) (fullT : Nat) : CapsData k p g prices prices fullT :=
+  ⟨makeVector_scale k hmax g prices, makeVector_scale k hmin g prices, rfl, rfl⟩
+
+theorem contractVectors_caps {k : Rat} (hk : 0 < k) (p : ContractP) (g : Grid) (prices prices' : Prices)
+    (fullT : Nat) (hd : CapsData k p g prices prices' fullT) :
+    contractVectors (p.capsTimes k) g prices'
       = (contractVectors p g prices).map (fun v => (scO k v.1, scO k v.2.1, v.2.2)) := by
   unfold contractVectors
-  simp only [ContractP.capsTimes, makeVector_scale k hmin, makeVector_scale k hmax]
+  simp only [ContractP.capsTimes, hd.maxCap, hd.minCap, hd.extra]
   cases makeVector p.maxCap g prices none true with
   | error e => rfl
   | ok maxO =>
@@ -230,6 +246,105 @@ theorem contractVectors_caps {k : Rat} (hk : 0 < k) (p : ContractP) (hmin : p.mi
       split
       · rfl
       · cases makeVector p.extraCosts g prices (some 0) false <;> rfl
+
+/-! ### capacities given as keys into the price data -/
+
+/-- price data that go with "capacities times `k`": the series used as capacities are multiplied by `k`, the price
+    series and the extra-cost series are the same -/
+def CapsPrices (k : Rat) (p : ContractP) (prices prices' : Prices) : Prop :=
+  (∀ key, (p.minCap = .key key ∨ p.maxCap = .key key) →
+      prices'.lookup key = (prices.lookup key).map (List.map (· * k))) ∧
+  (∀ key, (p.price = some key ∨ p.extraCosts = .key key) → prices'.lookup key = prices.lookup key)
+
+theorem sample_scale (k : Rat) (arr : List Rat) (is : List Nat) :
+    sample (arr.map (· * k)) is = (sample arr is).map (List.map (· * k)) := by
+  unfold sample
+  simp only [List.length_map]
+  split
+  · simp only [pure, Except.pure, Except.map, List.map_map]
+    congr 1
+    apply List.map_congr_left
+    intro i _
+    exact getD_map_mul arr k i
+  · rfl
+
+theorem baseVector_prices_irrel {v : ParamValue} (hv : v.isKey = false) (g : Grid) (prices prices' : Prices)
+    (d : Option Rat) : baseVector v g prices' d = baseVector v g prices d := by
+  cases v with
+  | key s => simp [ParamValue.isKey] at hv
+  | _ => rfl
+
+theorem baseVector_key_scale (k : Rat) (key : String) (g : Grid) (prices prices' : Prices)
+    (h : prices'.lookup key = (prices.lookup key).map (List.map (· * k))) :
+    baseVector (.key key) g prices' none = (baseVector (.key key) g prices none).map (scO k) := by
+  unfold baseVector
+  simp only [h]
+  cases prices.lookup key with
+  | none => rfl
+  | some arr =>
+    simp only [Option.map_some, sample_scale]
+    cases sample arr g.idx with
+    | error e => rfl
+    | ok r =>
+      simp only [Except.map, scO, List.map_map]
+      congr 1
+
+/-- a capacity in any form: the vector in volume per step is multiplied by `k`, provided a series used as capacity
+    is multiplied by `k` -/
+theorem makeVector_caps (k : Rat) (v : ParamValue) (g : Grid) (prices prices' : Prices)
+    (h : ∀ key, v = .key key → prices'.lookup key = (prices.lookup key).map (List.map (· * k))) :
+    makeVector (v.scale k) g prices' none true = (makeVector v g prices none true).map (scO k) := by
+  by_cases hv : v.isKey = false
+  · have hv' : (v.scale k).isKey = false := by cases v <;> simp_all [ParamValue.scale, ParamValue.isKey]
+    have : makeVector (v.scale k) g prices' none true = makeVector (v.scale k) g prices none true := by
+      unfold makeVector; rw [baseVector_prices_irrel hv']
+    rw [this]
+    exact makeVector_scale k hv g prices
+  · cases v with
+    | key s =>
+      unfold makeVector
+      show (do let base ← baseVector (.key s) g prices' none; if true = true then pure (timesDt base g) else pure base) = _
+      rw [baseVector_key_scale k s g prices prices' (h s rfl)]
+      cases baseVector (.key s) g prices none with
+      | error e => rfl
+      | ok base =>
+        simp only [Except.map, bind, Except.bind, pure, Except.pure, if_true]
+        rw [← timesDt_scale]
+    | scalar _ => simp [ParamValue.isKey] at hv
+    | array _ => simp [ParamValue.isKey] at hv
+    | intervals _ => simp [ParamValue.isKey] at hv
+
+theorem makeVector_prices_congr (v : ParamValue) (g : Grid) (prices prices' : Prices) (d : Option Rat) (c : Bool)
+    (h : ∀ key, v = .key key → prices'.lookup key = prices.lookup key) :
+    makeVector v g prices' d c = makeVector v g prices d c := by
+  unfold makeVector
+  have : baseVector v g prices' d = baseVector v g prices d := by
+    cases v with
+    | key s => unfold baseVector; simp only [h s rfl]
+    | _ => rfl
+  rw [this]
+
+theorem priceVector_congr (key : Option String) (g : Grid) (prices prices' : Prices) (fullT : Nat)
+    (h : ∀ s, key = some s → prices'.lookup s = prices.lookup s) :
+    priceVector key g prices' fullT = priceVector key g prices fullT := by
+  cases key with
+  | none => rfl
+  | some s => unfold priceVector; simp only [h s rfl]
+
+theorem capsData_of_prices (k : Rat) (p : ContractP) (g : Grid) (prices prices' : Prices) (fullT : Nat)
+    (h : CapsPrices k p prices prices') : CapsData k p g prices prices' fullT :=
+  ⟨makeVector_caps k p.maxCap g prices prices' (fun key hk => h.1 key (Or.inr hk)),
+   makeVector_caps k p.minCap g prices prices' (fun key hk => h.1 key (Or.inl hk)),
+   makeVector_prices_congr p.extraCosts g prices prices' _ _ (fun key hk => h.2 key (Or.inr hk)),
+   priceVector_congr p.price g prices prices' fullT (fun s hs => h.2 s (Or.inl hs))⟩
+
+/-- capacities not given as keys: the same price data go with every `k` -/
+theorem capsPrices_self (k : Rat) (p : ContractP) (hmin : p.minCap.isKey = false) (hmax : p.maxCap.isKey = false)
+    (prices : Prices) : CapsPrices k p prices prices := by
+  refine ⟨?_, fun _ _ => rfl⟩
+  rintro key (h | h)
+  · rw [h] at hmin; simp [ParamValue.isKey] at hmin
+  · rw [h] at hmax; simp [ParamValue.isKey] at hmax
 
 /-! ### the simple contract -/
 
@@ -248,19 +363,19 @@ theorem map_rmax_scale {k : Rat} (hk : 0 ≤ k) (xs : List Rat) :
   exact rmax_scale hk v
 
 /-- `SimpleContract`: capacities times `k > 0` give the same problem with all bounds times `k` (it has no rows) -/
-theorem simple_caps' {k : Rat} (hk : 0 < k) (p : ContractP) (hmin : p.minCap.isKey = false)
-    (hmax : p.maxCap.isKey = false) (g : Grid) (prices : Prices) (fullT : Nat) :
-    buildSimpleContract (p.capsTimes k) g prices fullT
+theorem simple_caps' {k : Rat} (hk : 0 < k) (p : ContractP) (g : Grid) (prices prices' : Prices) (fullT : Nat)
+    (hd : CapsData k p g prices prices' fullT) :
+    buildSimpleContract (p.capsTimes k) g prices' fullT
       = (buildSimpleContract p g prices fullT).map (scaleAll k) := by
   have hk0 : 0 ≤ k := Rat.le_of_lt hk
   unfold buildSimpleContract
-  rw [contractVectors_caps hk p hmin hmax]
+  rw [contractVectors_caps hk p g prices prices' fullT hd]
   have h1 : scalarIllPosed (p.capsTimes k).minCap (p.capsTimes k).maxCap = scalarIllPosed p.minCap p.maxCap :=
     scalarIllPosed_scale hk _ _
   have h2 : (p.capsTimes k).price = p.price := rfl
   have h3 : (p.capsTimes k).nodes = p.nodes := rfl
   have h4 : (p.capsTimes k).name = p.name := rfl
-  rw [h1, h2, h3, h4]
+  rw [h1, h2, h3, h4, hd.price]
   simp only [bind, Except.bind, pure, Except.pure]
   split
   · rfl
@@ -318,11 +433,11 @@ theorem negTake_scale (k : Rat) (tk : Take) : negTake (scaleTake k tk) = scaleTa
   grind
 
 /-- `Contract` (take periods): capacities and take volumes times `k > 0` -/
-theorem contract_caps' {k : Rat} (hk : 0 < k) (p : ContractP) (hmin : p.minCap.isKey = false)
-    (hmax : p.maxCap.isKey = false) (g : Grid) (prices : Prices) (fullT u : Nat) :
-    buildContract (p.capsTimes k) g prices fullT u = (buildContract p g prices fullT u).map (scaleAll k) := by
+theorem contract_caps' {k : Rat} (hk : 0 < k) (p : ContractP) (g : Grid) (prices prices' : Prices) (fullT u : Nat)
+    (hd : CapsData k p g prices prices' fullT) :
+    buildContract (p.capsTimes k) g prices' fullT u = (buildContract p g prices fullT u).map (scaleAll k) := by
   unfold buildContract
-  rw [simple_caps' hk p hmin hmax]
+  rw [simple_caps' hk p g prices prices' fullT hd]
   cases buildSimpleContract p g prices fullT with
   | error e => rfl
   | ok a =>
@@ -330,12 +445,12 @@ theorem contract_caps' {k : Rat} (hk : 0 < k) (p : ContractP) (hmin : p.minCap.i
     simp only [scaleAll, List.map_append]
 
 /-- `MultiCommodityContract` -/
-theorem multi_caps' {k : Rat} (hk : 0 < k) (p : ContractP) (factors : List Rat) (hmin : p.minCap.isKey = false)
-    (hmax : p.maxCap.isKey = false) (g : Grid) (prices : Prices) (fullT u : Nat) :
-    buildMulti (p.capsTimes k) factors g prices fullT u
+theorem multi_caps' {k : Rat} (hk : 0 < k) (p : ContractP) (factors : List Rat) (g : Grid)
+    (prices prices' : Prices) (fullT u : Nat) (hd : CapsData k p g prices prices' fullT) :
+    buildMulti (p.capsTimes k) factors g prices' fullT u
       = (buildMulti p factors g prices fullT u).map (scaleAll k) := by
   unfold buildMulti
-  rw [contract_caps' hk p hmin hmax]
+  rw [contract_caps' hk p g prices prices' fullT u hd]
   have h1 : scalarIllPosed (p.capsTimes k).minCap (p.capsTimes k).maxCap = scalarIllPosed p.minCap p.maxCap :=
     scalarIllPosed_scale hk _ _
   have h3 : (p.capsTimes k).nodes = p.nodes := rfl
